@@ -24,11 +24,12 @@ import (
 
 func TestVerif_C01Pipe(t *testing.T) {
 	prop := vEnv("VERIF_PROP", "C01")
-	if prop != "C02" && prop != "C11" {
+	if prop != "C02" && prop != "C11" && prop != "C03" {
 		prop = "C01"
 	}
-	// as a job of C11 (the settings in config.toml shape the files) every aspect counts
-	asC01, asC02 := prop == "C01" || prop == "C11", prop == "C02" || prop == "C11"
+	// as a job of C11 (the settings in config.toml shape the files) and of C03 (the length of every
+	// stored recording, down to the trigger frame alone) every aspect counts
+	asC01, asC02 := prop != "C02", prop != "C01"
 	c := vStart(t, prop, "TestVerif_C01Pipe")
 	defer c.Finish()
 	scratch := vEnv("VERIF_SCRATCH", t.TempDir())
@@ -85,6 +86,15 @@ func TestVerif_C01Pipe(t *testing.T) {
 			}
 		} else {
 			frames = genStream(rng, cam, 1, streamOpts{Frames: nf, MotionPct: rng.PickInt(30, 60, 100), Clears: rng.PickInt(0, 0, 1)})
+		}
+		shortest := idx%6 == 3
+		if shortest {
+			// the shortest recordings there are: min-secs 0, no preview, trigger-frames 1 - a lone
+			// motion frame is a recording of that one frame; sustained motion makes recordings that
+			// follow each other without a frame between them
+			cfg.MinSecs, cfg.PreviewSecs, cfg.MaxSecs = 0, 0, int(idx/6)%3
+			cfg.Motion = simpleMotion(1, 1)
+			frames = c10Frames(cam, "ffffmfffffmfmffffmmmmmmmmmmmmmmmmmmmmmmmmmfffffmffff"+strings.Repeat("fffmffmmff", 4))
 		}
 		nFrames := 0
 		for _, f := range frames {
@@ -151,6 +161,9 @@ func TestVerif_C01Pipe(t *testing.T) {
 				if !isTest {
 					mfiles = append(mfiles, d)
 				}
+			}
+			if shortest {
+				c.Count("connections_with_single_frame_recordings", 1)
 			}
 			exp, _ := expectRecordings(cfg, cam, frames)
 			var expDone []expRecording
